@@ -209,7 +209,7 @@ def bounded(tier_name, rnd):
             "rule": "every program of a fixed corpus (%d functions covering for/while/break/continue/if/bool-ops/tuple and augmented assignment/calls/"
                     "float arithmetic) x every argument pair of the grid %s; compiled with python_to_ir, run through ir_to_python, compared with CPython; "
                     "each (program, arguments) pair is distinct" % (len(PROGRAMS), "%d..%d" % (rng[0], rng[-1])),
-            "programs": len(PROGRAMS), "bound": "fixed corpus, integer arguments in %d..%d" % (rng[0], rng[-1]), "violations": vio}
+            "programs": len(PROGRAMS), "samples": [{"program": PROGRAMS[0][0], "source": PROGRAMS[0][1], "args": list(ints[0])}, {"program": PROGRAMS[5][0], "source": PROGRAMS[5][1], "args": list(ints[-1])}], "bound": "fixed corpus, integer arguments in %d..%d" % (rng[0], rng[-1]), "violations": vio}
 
 
 def _floordiv_region(a, b):
